@@ -157,3 +157,53 @@ REGISTRY["C02"] = dict(REGISTRY["C01"], **{
                "reset_crash_before_marker", "reset_resumed", "reset_equivalence_checked", "reset_refused",
                "backend_boltdb", "backend_leveldb", "backend_memory"],
 })
+
+REGISTRY["C06"] = dict(REGISTRY["C01"], **{
+    "level_text": ("a corrupting / Byzantine block source in front of a verifying replica: at plan-chosen heights the next valid block is "
+                   "delivered first in 1-8 corrupted variants out of a catalogue of 26 classes (header fields, witness, transaction "
+                   "list, encoding), unsigned and - where the result is still an invalid extension - re-signed with the real "
+                   "validator keys; after every rejected delivery tip, observation, mempool and (after a forced flush) the raw "
+                   "database dump must be unchanged, then the correct block must still be accepted; chain states are sampled, the "
+                   "catalogue is enumerated by the plan generator"),
+    "level_note": ("trusted: corruption builders in ledger/c06.go. Only the conditions the statement lists are demanded: re-signed "
+                   "variants of fields the statement does not mention (version, nonce, primary, next consensus, dropped/reordered "
+                   "transactions with a rebuilt Merkle root) are valid different blocks and are not generated. When the corrupted "
+                   "block's header is itself validly signed and linked only the header record / pointer / hash page may change; if "
+                   "that header differs from the genuine one (equivocation built by the harness) the run ends there"),
+    "design_ref": "DESIGN.md section 2, C06",
+    "technique": "deterministic simulation: fault injection by a corrupting block source, rejected-delivery = no observable or durable change, then normal progress",
+    "budget": {"quick": 75, "thorough": 1800},
+    "rule": _LEDGER_RULE + "C06: one verifying replica; corrupted deliveries as described in level_text. Non-trivial = at least one corrupted "
+            "delivery that differs from the valid bytes; distinct = distinct event-log hash.",
+    "probes": ["corrupted_block_delivered"] + ["corruption/" + n for n in
+               ["version", "prevhash", "merkle", "timestamp", "index+1", "index-far", "index-1", "nonce", "primary", "nextconsensus",
+                "prevstateroot", "sig-flip", "sig-missing", "sig-reorder", "sig-otherkeys", "verifscript", "tx-dup", "tx-alter",
+                "tx-expired", "tx-onchain", "tx-underfunded", "tx-drop-keep-merkle", "tx-reorder-keep-merkle", "truncated", "trailing",
+                "nonminimal-count"]] + ["valid_header_of_rejected_block_recorded", "genuine_header_recorded_before_body",
+               "equivocating_header_recorded", "lenient_decoding_accepted_identical_block", "corruption_keeps_genuine_header"],
+})
+REGISTRY["C04"] = dict(REGISTRY["C01"], **{
+    "level": "fault_enumeration",
+    "level_text": ("twin execution on a forked ledger: after a generated history the ledger is forked; fork A receives a block with the "
+                   "faulting transaction X, fork B the same block with X replaced by a twin with the same signers, fees and validity "
+                   "window whose script is a bare ABORT (or, for caught exceptions, whose callee throws at once). The fault is injected "
+                   "as (i) ABORT/THROW/failing call/ASSERT at position k of a generated effect script, (ii) gas exhaustion: the halting "
+                   "script re-run with its system fee cut at a plan-chosen per-mille point plus up to 48 (thorough; quick 4) cut points "
+                   "spread over the distinct cumulative-gas levels recorded in a dry run, (iii) an exception raised at depth 1-3 of a "
+                   "call tree and caught by the caller. Fault points per script are enumerated, scripts and histories are sampled"),
+    "level_note": ("trusted: helper contracts (hand-assembled NeoVM code), the twin construction. Not demanded: empty Events of a FAULTed "
+                   "transaction's execution result (neo-go keeps them in the log while applying none). Failures that neo-go does not "
+                   "make catchable (X FAULTs although wrapped in try) are outside the caught-exception clause and only counted"),
+    "design_ref": "DESIGN.md section 2, C04",
+    "technique": "deterministic simulation: fault injection at script positions / gas charge points / call depths, twin execution on forked real ledgers, state equality",
+    "budget": {"quick": 75, "thorough": 1800},
+    "rule": _LEDGER_RULE + "C04: history of 3-10 blocks with the three helper contracts deployed, then the twin experiment. Effects: K.put/del/ev/seq, "
+            "nested K.call(K2.put), GAS/NEO transfers, NEO.vote, ContractManagement.deploy, GAS transfer to a contract with payment callback. "
+            "Oracle: every observation section except the execution results themselves is equal on both forks (state root, complete storage, "
+            "governance, policy, contracts, balances); for caught exceptions both HALT and their event lists are equal. "
+            "Non-trivial = a fork pair was compared; distinct = distinct event-log hash.",
+    "probes": ["fault_at_position", "gas_cut", "caught_exception", "caught_exception/depth1", "caught_exception/depth2", "caught_exception/depth3",
+               "atom_forks_compared", "atom_caught_events_compared", "gas_levels_seen", "atom_x_did_not_fault", "atom_caught_not_halting",
+               "atom_tx_not_admissible"] + ["fault/" + n for n in ["ABORT", "THROW", "K.fail", "K.abort", "call-missing-method",
+               "call-missing-contract", "ASSERT-false", "K.putFail"]],
+})
